@@ -10,8 +10,10 @@ ERROR awkward_NumpyArray_getitem_boolean_numtrue(
   int64_t length,
   int64_t stride) {
   *numtrue = 0;
-  for (int64_t i = 0;  i < length;  i += stride) {
-    *numtrue = *numtrue + (fromptr[i] != 0);
+  // 'length' items, 'stride' bytes apart (a stride other than 1, negative
+  // ones included, is a view such as x[::2] or x[::-1])
+  for (int64_t i = 0;  i < length;  i++) {
+    *numtrue = *numtrue + (fromptr[i*stride] != 0);
   }
   return success();
 }
